@@ -15,6 +15,7 @@ import (
 	"hash/fnv"
 	"math"
 	"os"
+	"runtime"
 	"testing"
 	"time"
 
@@ -426,6 +427,11 @@ func v14GetSock(kind string) *v14Sock {
 func (s *v14Sock) marker() int64 {
 	s.seq++
 	s.pub <- []*DataRecord{{channelIndex: 65535, trigFrame: FrameIndex(-s.seq), trigTime: vT0, data: []RawType{}}}
+	// let the publishing goroutine take the batches before this goroutine blocks inside the C library's receive
+	// call (otherwise it waits for the runtime's monitor thread to hand the processor over: tens of milliseconds)
+	for i := 0; i < 4 && len(s.pub) > 0; i++ {
+		runtime.Gosched()
+	}
 	return -s.seq
 }
 
@@ -440,18 +446,23 @@ func v14FrameOf(kind string, parts [][]byte) (int64, bool) {
 	return int64(binary.LittleEndian.Uint64(parts[0][off:])), true
 }
 
-// drainTo receives messages until the marker arrives and returns the ones before it. dastard's publisher drops
-// a message when zmq_send is interrupted by a signal (it logs "zmq send error" and goes on; the Go runtime sends
-// signals): a marker that does not arrive within 2 s is therefore sent again.
+// drainTo receives messages until the marker arrives and returns the ones before it. In this environment the
+// last message handed to the PUB socket now and then (1-2 % of the time) stays put until the next one is
+// sent (observed with the unchanged publisher; the messages before it always arrive), and dastard's publisher
+// drops a message when zmq_send is interrupted by a signal: a marker that has not arrived after 100 ms is
+// therefore followed by another one.
 func (s *v14Sock) drainTo(mark int64) [][][]byte {
 	var msgs [][][]byte
 	marks := map[int64]bool{mark: true}
-	s.sub.SetRcvtimeo(2 * time.Second)
+	s.sub.SetRcvtimeo(100 * time.Millisecond)
 	for tries := 0; ; {
 		parts, err := s.sub.RecvMessageBytes(0)
 		if err != nil {
+			if os.Getenv("VERIF_C14_DEBUG") != "" {
+				fmt.Fprintf(os.Stderr, "DBG timeout waiting for %v: %v, %d msgs so far, pubchan len %d\n", marks, err, len(msgs), len(s.pub))
+			}
 			tries++
-			if tries > 15 {
+			if tries > 300 {
 				v14Infra("%s: no marker received after %d attempts (%d messages before it): %v", s.kind, tries, len(msgs), err)
 			}
 			marks[s.marker()] = true
@@ -517,7 +528,11 @@ func v14SocketAttempt(x *vexp.X, kind string, pick func(int) int) (vexp.Result, 
 		s.pub <- b
 	}
 	x.Steps = len(want)
+	t0dbg := time.Now()
 	msgs := s.drainTo(s.marker())
+	if os.Getenv("VERIF_C14_DEBUG") != "" {
+		fmt.Fprintf(os.Stderr, "DBG drain %v msgs=%d\n", time.Since(t0dbg), len(msgs))
+	}
 	desc := fmt.Sprintf("%s port: batches of sizes %v", kind, func() []int {
 		var z []int
 		for _, b := range batches {
